@@ -49,7 +49,12 @@ type Ctx struct {
 	skip       bool
 	notes      map[string]int
 	Replay     bool // true when re-executing a recorded scenario
+	extraEvals int
 }
+
+// AddEvaluations accounts for n further evaluations performed inside this one execution
+// (scenarios that loop over a finite input set internally).
+func (c *Ctx) AddEvaluations(n int) { c.extraEvals += n }
 
 func (c *Ctx) choose(label string, n, cost int) int {
 	if n <= 1 {
@@ -251,7 +256,7 @@ func (e *Explorer) Explore() *Result {
 		if c.skip && len(c.violations) == 0 {
 			local.Skipped++
 		} else {
-			local.Executions++
+			local.Executions += int64(1 + c.extraEvals)
 			for _, k := range c.nontrivial {
 				local.Nontrivial[k] = struct{}{}
 			}
